@@ -35,7 +35,7 @@ import (
 // decrypting reader, seekable.go) or over a double that hides Seek (tink-go's sequential reader).
 //
 //	part <seek|seq> <css> <hlen> <pt>     pt: hex | "-" | gen:<n> (pt[i] = (7i+3) mod 251)
-//	fixes eof=<0|1> hdreof=<0|1>          (probed) the seekable reader authenticates the last segment before EOF;
+//	fixes eof=<0|1> hdreof=<0|1> seqcut=<0|1>   (probed) the seekable reader authenticates the last segment before EOF;
 //	                                      a stream that ends inside the envelope is an error, not an empty part
 //	mut none | xor <off> <mask> | trunc <n> | append <hex> | swap <i> <j> | cross-whole | cross-body <n2> |
 //	    hdr-segsize <v> <hlen2> | hdr-dek | hdr-version <v> <hlen2> | hdr-keytype <hlen2>
@@ -515,8 +515,20 @@ func runC16(args []string) {
 			}
 			rc.Close()
 		}
+		// probe: does the sequential path reject the same 1-byte-behind-the-boundary cut
+		// (fixes/C16-sequential-reader-rejects-cut-streams.patch)?
+		verifx.Check(os.WriteFile(e.file(id), st[:4+hl+100+1], 0o600))
+		seqcut := 0
+		if rc, err := e.seqMw.GetPart(e.ctx, nil, id); err != nil {
+			seqcut = 1
+		} else {
+			if _, rerr := io.ReadAll(rc); rerr != nil {
+				seqcut = 1
+			}
+			rc.Close()
+		}
 		_ = os.Remove(e.file(id))
-		e.fixes = fmt.Sprintf("fixes eof=%d hdreof=%d", eof, hdreof)
+		e.fixes = fmt.Sprintf("fixes eof=%d hdreof=%d seqcut=%d", eof, hdreof, seqcut)
 	}
 	k := 0
 	emit := func(seed uint64, c *c16Case) {
